@@ -612,6 +612,9 @@ class ZeroSigH0SingleDatasetTCLLHRatio(
         tl : instance of TimeLord
             The optional instance of TimeLord to measure timing information.
         """
+        # The cached first derivatives w.r.t. ns belong to the previous trial.
+        self._cache_nsgrad_i = None
+
         self._pdfratio.initialize_for_new_trial(
             tdm=self._tdm,
             tl=tl,
